@@ -76,10 +76,29 @@ Definition c08_trace (S : SOps) sq (n m : nat) (cf : c08_cfg S)
                   fs_valid st, fs_lik st))
       (pf_trace st0 (map (c08_step_in S sq n m cf) steps)).
 
+(* TIME-VARYING HISTORIES: every step carries its own measurement size and configuration record
+   (state model F, Q; measurement function H, G, G2, b, g and noise covariance R; likelihood scale;
+   transition model Ft, Qt).  This is the entry point the driver runs (one step at a time, from the
+   state the implementation reported before the step); c08_trace is the special case of a constant
+   configuration (C08_executed_trace_time_varying in Properties_C08.v). *)
+Definition c08_step_in_tv (S : SOps) sq (n : nat) (mcs : nat * c08_cfg S * step_tuple S)
+  : step_in (c08_O S sq) n * (bool * bool) :=
+  let '(m, cf, s) := mcs in c08_step_in S sq n m cf s.
+
+Definition c08_trace_tv (S : SOps) sq (n : nat)
+           (pred0 corr0 : list (ptuple S)) (valid0 : bool) (lik0 : list (T S))
+           (steps : list (nat * c08_cfg S * step_tuple S))
+  : list (list (ptuple S) * list (ptuple S) * bool * list (T S)) :=
+  let st0 := @mkFstate (c08_O S sq) n (map (c08_of_tuple S sq n) pred0)
+                       (map (c08_of_tuple S sq n) corr0) valid0 lik0 in
+  map (fun st => (map (c08_to_tuple S sq n) (fs_pred st), map (c08_to_tuple S sq n) (fs_corr st),
+                  fs_valid st, fs_lik st))
+      (pf_trace st0 (map (c08_step_in_tv S sq n) steps)).
+
 (* proposal density and square-root factor, for the oracle / the comparison with the
    factor observed on the implementation *)
 Definition c08_proposal (S : SOps) sq (n : nat) (x m P : lmx S) : T S :=
   @evaluate_proposal (c08_O S sq) n x m P.
 Definition c08_ldlt (S : SOps) sq (n : nat) (P : lmx S) : lmx S := @ldlt_sqrt (c08_O S sq) n P.
 
-Extraction "C08_model.ml" c08_trace c08_proposal c08_ldlt.
+Extraction "C08_model.ml" c08_trace c08_trace_tv c08_proposal c08_ldlt.
